@@ -758,17 +758,46 @@ def exhaustive_case(kind):
     return run
 
 
-def tet_buffer_overflow(e):
-    """Predicate of the recorded finding: NumPy refuses to store new cells / points / split edges because
-    the arrays MeshTet1._adaptive allocates up front (8 nt cells, 9 nv points, 8 nv edges) are full."""
+def tet_buffer_overflow(e, mesh):
+    """Predicate of the recorded finding "the work arrays MeshTet1._adaptive allocates up front (8 nt cells,
+    9 nv points, 8 nv split edges) are full".  All of: (1) NumPy's refusal to store into a too short slice,
+    raised in MeshTet1._adaptive itself; (2) read from that frame: the pending cells / points really do not
+    fit; (3) the cells produced so far are a correct (still non-conforming) subdivision of the parent: none
+    degenerate, each inside one parent cell, measures adding up exactly -- so a runaway caused by a wrong
+    split is NOT classified here.  Returns (True, facts) or (False, reason)."""
     import re
-    import traceback
     if not isinstance(e, ValueError):
-        return False
+        return False, "not a ValueError"
     if not re.search(r"could not broadcast input array from shape \(\d+,\d+\) into shape \(\d+,\d+\)", str(e)):
-        return False
-    frames = [f for f in traceback.extract_tb(e.__traceback__) if "/skfem/" in f.filename]
-    return bool(frames) and frames[-1].filename.endswith("mesh_tet_1.py") and frames[-1].name == "_adaptive"
+        return False, "other message"
+    tb, frame = e.__traceback__, None
+    while tb is not None:
+        code = tb.tb_frame.f_code
+        if code.co_filename.endswith("mesh_tet_1.py") and code.co_name == "_adaptive":
+            frame = tb.tb_frame
+        last = tb
+        tb = tb.tb_next
+    if frame is None or last.tb_frame is not frame:
+        return False, "not raised in MeshTet1._adaptive"
+    L = frame.f_locals
+    try:
+        p, t, nt, nv, nm, ns = L["p"], L["t"], int(L["nt"]), int(L["nv"]), int(L["nm"]), int(L["ns"])
+        nn = int(L["nn"]) if "nn" in L else 0
+        full = (nt + nm > t.shape[1]) or (nv + nn > p.shape[1]) or (ns + nn > L["split_edge"].shape[1])
+    except Exception as err:      # renamed locals: cannot establish the predicate
+        return False, "frame not readable: %r" % (err,)
+    if not full:
+        return False, "buffers not full"
+    nvp = nverts(mesh)
+    orc = R.StepOracle(np.asarray(mesh.p)[:, :nvp], np.asarray(mesh.t)[:4], np.array(p[:, :nv]), np.array(t[:, :nt]))
+    if orc.degenerate_children().size:
+        return False, "partial subdivision has degenerate cells"
+    if (orc.locate() < 0).any():
+        return False, "partial subdivision leaves the parent cells"
+    if orc.measure_defects().size:
+        return False, "partial subdivision does not add up to the parents"
+    return True, {"cells_so_far": nt, "pending_cells": nm, "cell_capacity": int(t.shape[1]),
+                  "points_so_far": nv, "point_capacity": int(p.shape[1]), "parent_cells": int(mesh.t.shape[1])}
 
 
 def one_step(ctx, mesh, marked, desc, rng, step=0, order_check=False, form=None, light=False):
@@ -778,10 +807,11 @@ def one_step(ctx, mesh, marked, desc, rng, step=0, order_check=False, form=None,
     try:
         child, records = call_refined(mesh, arg)
     except ValueError as e:
-        if not tet_buffer_overflow(e):
+        is_overflow, facts = tet_buffer_overflow(e, mesh)
+        if not is_overflow:
             raise
         ctx.check("valid-mesh", False, mech="tet-adaptive-preallocated-buffers-overflow", case=desc,
-                  error=str(e), ncells=int(mesh.t.shape[1]), nverts=int(mesh.p.shape[1]), marked=marked,
+                  error=str(e), facts=facts, nverts=int(mesh.p.shape[1]), marked=marked,
                   p=lambda: np.asarray(mesh.p)[:, :40], t=lambda: np.asarray(mesh.t)[:, :40])
         ctx.reached("tet-adaptive-raised-on-full-buffers")
         return None
